@@ -76,6 +76,38 @@ def r06_pos(chk, prog, rule="R06-pos"):
     chk.rule(rule, "direct TokenIter::next calls: inside get_token, or for a peeked comment", n, floor=2)
 
 
+def _count_span(b, ops, st):
+    """(start local, end local) of the slice `text[a..b]` handed to the count_newlines() call whose result is added in statement st"""
+    for o in ops:
+        if o is None or o["p"]:
+            continue
+        for bj, t in b.calls():
+            if t.get("dest") and not t["dest"]["p"] and t["dest"]["l"] == o["l"] and mir.strip_generics(t.get("res") or "").endswith("count_newlines") and t["args"]:
+                l = mir.op_place(t["args"][0])
+                for _ in range(6):
+                    if l is None or l["p"]:
+                        return None
+                    nxt = None
+                    for bk, t2 in b.calls():
+                        if t2.get("dest") and not t2["dest"]["p"] and t2["dest"]["l"] == l["l"] and re.search(r"::index$", mir.strip_generics(t2.get("res") or "")) and len(t2["args"]) == 2:
+                            rp = mir.op_place(t2["args"][1])
+                            if rp is None or rp["p"]:
+                                return None
+                            for bm, sm, s4 in b.stmts():
+                                if s4["k"] == "assign" and not s4["p"]["p"] and s4["p"]["l"] == rp["l"] and s4["rv"]["r"] == "agg" and "Range" in (s4["rv"].get("adt") or "") and len(s4["rv"]["ops"]) == 2:
+                                    a_, e_ = mir.op_place(s4["rv"]["ops"][0]), mir.op_place(s4["rv"]["ops"][1])
+                                    if a_ is not None and e_ is not None and not a_["p"] and not e_["p"]:
+                                        return (guards.resolve_copy(b, a_["l"]), guards.resolve_copy(b, e_["l"]))
+                            return None
+                    for bk, sk, s5 in b.stmts():
+                        if s5["k"] == "assign" and not s5["p"]["p"] and s5["p"]["l"] == l["l"] and s5["rv"]["r"] in ("ref", "use"):
+                            nxt = s5["rv"]["p"] if s5["rv"]["r"] == "ref" else mir.op_place(s5["rv"]["a"])
+                            if nxt is not None and nxt["p"] and all(x == "*" for x in nxt["p"]):
+                                nxt = {"l": nxt["l"], "p": []}
+                    l = nxt
+    return None
+
+
 def r06_line(chk, prog, rule="R06-line"):
     """token lines (and through them the position of every diagnostic) come from one counter per scan: in tokenizer.rs every
     addition to a u32 line counter adds the result of count_newlines() over a span of the text (no second way of counting that
@@ -112,6 +144,20 @@ def r06_line(chk, prog, rule="R06-line"):
                 for bj, t in b.calls():
                     if t.get("dest") and not t["dest"]["p"] and t["dest"]["l"] == o["l"] and mir.strip_generics(t.get("res") or "").endswith("count_newlines"):
                         from_count = True
+            if from_count:
+                # ... and where a token was just built, the counted span is the token's own extent [startpos..endpos]
+                # (counting beyond the end of the token counts line breaks twice that the caller sees again as whitespace)
+                span = _count_span(b, ops, st)
+                tok = None
+                for bk, sk, s3 in b.stmts():
+                    if s3["k"] == "assign" and s3["rv"]["r"] == "agg" and s3["rv"].get("adt") == "tokenizer::A2lToken" and (bk == bi or b.dominates(bk, bi)):
+                        f3 = s3["rv"]["fields"]
+                        e_ = mir.op_place(s3["rv"]["ops"][f3.index("endpos")])
+                        s_ = mir.op_place(s3["rv"]["ops"][f3.index("startpos")])
+                        if e_ is not None and s_ is not None and not e_["p"] and not s_["p"]:
+                            tok = (guards.resolve_copy(b, s_["l"]), guards.resolve_copy(b, e_["l"]), bk)
+                if span is not None and tok is not None and tok[2] != 0 and span[1] != tok[1]:
+                    chk.add(Finding(rule, "%s::%s::span" % (rule, mir.strip_generics(fid)), "%s advances the line counter by the line breaks of a span that does not end where the token it just built ends: line breaks behind the token are counted here and again when the caller skips them as whitespace" % fid, b.where(st["ln"])))
             if not from_count:
                 chk.add(Finding(rule, "%s::%s" % (rule, mir.strip_generics(fid)), "%s advances a line counter by something other than count_newlines() of the consumed text: tokens behind that point (and every diagnostic there) can carry a wrong line" % fid, b.where(st["ln"])))
     chk.rule(rule, "additions to the scanner's line counters that add count_newlines() of a text span", n, floor=4)
